@@ -189,7 +189,10 @@ func (w *World) CheckLinks(tx *bbolt.Tx, m *Model) error {
 		}{{lc.A, lc.FieldA, lc.B, false}, {lc.B, lc.FieldB, lc.A, true}}
 		for _, side := range sides {
 			key := side.store + "." + side.field
-			for id := range m.Ents[side.store] {
+			for id := range m.Ents[m.BaseStore(side.store)] {
+				if !m.LinkEndExists(side.store, id) {
+					continue
+				}
 				want := m.LinkedFrom(coll, side.flipped, id)
 				var got []string
 				var iter []string
@@ -211,14 +214,21 @@ func (w *World) CheckLinks(tx *bbolt.Tx, m *Model) error {
 					return fmt.Errorf("links %s of %q: IterateLinks %q, model %q", key, id, iter, want)
 				}
 				// raw bucket holds exactly the typed ids
-				raw, err := typedIDs(rawBucket(tx, "root", side.store, id, side.field))
+				rawPath := []string{"root", side.store, id, side.field}
+				if cc, isChild := m.childCfg(side.store); isChild {
+					rawPath = []string{"root", cc.Parent, id, "ext_" + side.store, side.field}
+				}
+				raw, err := typedIDs(rawBucket(tx, rawPath...))
 				if err != nil {
 					return fmt.Errorf("links %s of %q: raw bucket: %v", key, id, err)
 				}
 				if fmt.Sprint(raw) != fmt.Sprint(want) && !(len(raw) == 0 && len(want) == 0) {
 					return fmt.Errorf("links %s of %q: raw bucket %q, model %q", key, id, raw, want)
 				}
-				for oid := range m.Ents[side.other] {
+				for oid := range m.Ents[m.BaseStore(side.other)] {
+					if !m.LinkEndExists(side.other, oid) {
+						continue
+					}
 					a, b := id, oid
 					if side.flipped {
 						a, b = oid, id
@@ -278,6 +288,30 @@ func (w *World) CheckKids(tx *bbolt.Tx, m *Model) error {
 		if fmt.Sprint(ids) != fmt.Sprint(population) && !(len(ids) == 0 && len(population) == 0) || int(count) != len(population) {
 			return fmt.Errorf("child store %s: QueryIds(true) = %q (count %d), expected population %q", name, ids, count, population)
 		}
+		byName := append([]string(nil), population...)
+		pents := m.Ents[cc.Parent]
+		sort.SliceStable(byName, func(i, j int) bool {
+			if pents[byName[i]].Name != pents[byName[j]].Name {
+				return pents[byName[i]].Name < pents[byName[j]].Name
+			}
+			return byName[i] < byName[j]
+		})
+		sorted, scount, err := ks.QueryIds(tx, "true sort by name desc, id")
+		if err != nil {
+			return fmt.Errorf("child store %s: sorted QueryIds: %v", name, err)
+		}
+		// name descending, id ascending within equal names
+		wantSorted := append([]string(nil), population...)
+		sort.SliceStable(wantSorted, func(i, j int) bool {
+			if pents[wantSorted[i]].Name != pents[wantSorted[j]].Name {
+				return pents[wantSorted[i]].Name > pents[wantSorted[j]].Name
+			}
+			return wantSorted[i] < wantSorted[j]
+		})
+		if fmt.Sprint(sorted) != fmt.Sprint(wantSorted) && !(len(sorted) == 0 && len(wantSorted) == 0) || int(scount) != len(wantSorted) {
+			return fmt.Errorf("child store %s: QueryIds(true sort by name desc, id) = %q (count %d), expected %q", name, sorted, scount, wantSorted)
+		}
+		_ = byName
 		var iter, valid []string
 		for cur := ks.IterateIds(tx, boolTrue); cur.IsValid(); cur.Next() {
 			iter = append(iter, string(cur.Current()))
